@@ -43,6 +43,17 @@ def main():
                 print("  [VACUOUS] %s" % nme)
         if res["ghost_assumes"]:
             print("  ghost assumes:", res["ghost_assumes"])
+    from pyvc.stmts import verify_lemma
+    for lem in reg.logic.lemmas:
+        if pat not in "lemma." + lem.name:
+            continue
+        eng = Exec(repo, reg)
+        obls, probes = verify_lemma(eng, lem)
+        rs, texts = solve.discharge(obls, timeout_s=20)
+        for o, r in zip(obls, rs):
+            ok = r["status"] == "unsat"
+            bad += 0 if ok else 1
+            print("  [%s] %s (%s, %.2fs) %s" % ("ok" if ok else "FAIL", o.name, r["solver"], r["time"], "" if ok else r["detail"][:300].replace("\n", " ")))
     print("bad =", bad)
     return 1 if bad else 0
 
